@@ -63,6 +63,16 @@ def validate_batch(runs):
     return rej, out, spans
 
 
+def public_effects(run):
+    """What a run shows through public interfaces only: a transfer whose result() returned
+    normally has its complete effect (object stored / deleted / destination bytes)."""
+    f = []
+    for lb, res in run.results.items():
+        if res[0] == 'ok' and lb in getattr(run, 'expect', {}) and not monitors.effect_ok(run, lb):
+            f.append(f'{lb}: result() returned normally but the effect is incomplete')
+    return f
+
+
 def run_specs(ctx, prop_file, specs, monitor_fns, sampler=None, rule=''):
     """The whole flow for one property."""
     ok = common.proofs(ctx, prop_file, EXTRACT, COMPONENTS)
@@ -77,6 +87,7 @@ def run_specs(ctx, prop_file, specs, monitor_fns, sampler=None, rule=''):
         # proofs / build broke: still explore the implementation for a failing run
         pass
     runs, rejected = [], 0
+    incomplete = set()
     B = 60
     traces_seen = set()
     for b0 in range(0, len(specs), B):
@@ -107,7 +118,20 @@ def run_specs(ctx, prop_file, specs, monitor_fns, sampler=None, rule=''):
                       outcome='/'.join(sorted({v[0] if v[0] == 'ok' else v[1] for v in r.results.values()}))[:40])
             traces_seen.add(h)
             fails = []
-            for m in monitor_fns:
+            inc = sorted(set(getattr(r.I, 'missing', []) + getattr(r.I, 'broken', []))) if getattr(r, 'I', None) else []
+            if inc:
+                # a private name the instrumentation observes has moved: the log is incomplete,
+                # so neither trace validation nor the log-based monitors can be believed.
+                # What the run did through public interfaces (scheduler verdict, results,
+                # S3 objects, destination bytes) is still judged.
+                incomplete.update(inc)
+                rej.pop(i, None)
+                for m in (monitors.m_terminates, public_effects):
+                    try:
+                        fails += m(r)
+                    except Exception as e:
+                        fails.append(f'monitor {getattr(m, "__name__", m)} crashed: {type(e).__name__}: {e}')
+            for m in (monitor_fns if not inc else ()):
                 try:
                     fails += m(r)
                 except Exception as e:    # a monitor crash must not pass silently
@@ -127,6 +151,12 @@ def run_specs(ctx, prop_file, specs, monitor_fns, sampler=None, rule=''):
                             'rejected_event': line, 'context': context, 'model_state': dump}, no_input=True)
             if len(runs) < 3:
                 runs.append(r)
+    if incomplete:
+        what = ('instrumentation of the real code is incomplete (a private name it observes moved): '
+                + '; '.join(sorted(incomplete))[:600] + ' -- traces could not be validated against coq/model/Sys.v')
+        ctx.report('corr:instr:' + hashlib.sha1(what.encode()).hexdigest()[:10], what,
+                   {'kind': 'correspondence', 'theorem_or_correspondence': 'trace validation against coq/model/Sys.v (extracted): instrumentation hooks',
+                    'incomplete': sorted(incomplete)}, no_input=True)
     ctx.cov['traces_validated_against_impl'] = ctx.cov['evaluations'] - rejected
     ctx.cov['distinct_traces'] = len(traces_seen)
     for r in runs[:2]:
